@@ -30,7 +30,7 @@ LABELS = {"events": "events:set:0", "tree": "state:batch", "hash": "app:set:hash
 
 TOKEN_REACH = ["CreateOk", "CreateDuplicate", "CreateBadSupply", "RecreateOk", "RecreateByOther", "RecreateUnknown", "OwnerChanged", "OwnerChangeByOther",
                "RecreateByNewOwner", "MintOk", "MintOverMax", "MintByOther", "MintArchivedVersion", "MintNotMintable", "BurnOk", "BurnByHolder", "BurnBelowMinimum",
-               "BurnNotBurnable"]
+               "BurnNotBurnable", "CoinCreated", "CoinReserveTooLow", "CoinWrongCrr", "CoinCreatorTooPoor", "CoinRecreated", "CoinRecreateByOther"]
 
 
 def regress(family):
